@@ -441,6 +441,13 @@ FORMS: Dict[str, Optional[Tuple[str, str]]] = {
     "docref-missing-document": ("NOWHERE", "CONTAINER"),
     "docref-wrong-doctype": ("LR", "CONTAINER"),
 }
+# spellings of a reference element which are not well-formed ODXLINKs ((DOCREF, DOCTYPE); "missing-id-ref": no ID-REF at all)
+MALFORMED_FORMS: Dict[str, Any] = {
+    "docref-unknown-doctype": ("CA", "NONSENSE"),
+    "docref-without-doctype": ("CA", None),
+    "doctype-without-docref": (None, "CONTAINER"),
+    "missing-id-ref": "NO-ID-REF",
+}
 IMPORT_REF = {"ref": "LID.LE", "doc": ("CS", "CONTAINER")}
 
 
@@ -470,8 +477,10 @@ def id_world(sc: Dict[str, Any]) -> Tuple[Dict[str, Any], Dict[str, Any]]:
     for imp in sc["imports"]:
         byname[imp]["imports"] = [copy.deepcopy(IMPORT_REF)]
     ref: Dict[str, Any] = {"ref": X_ID}
-    doc = FORMS[sc["form"]]
-    if doc is not None:
+    doc = FORMS[sc["form"]] if sc["form"] in FORMS else MALFORMED_FORMS[sc["form"]]
+    if doc == "NO-ID-REF":
+        ref = {"ref": None}
+    elif doc is not None:
         ref["doc"] = doc
     add(LR, kind.source("LR", ref))
     ca = {"sn": "CA", "id": "CID.CA", "m": "container:CA", "layers": [LS, LR] if sc.get("s_first") else [LR, LS]}
@@ -598,6 +607,13 @@ def id_cells(quick: bool) -> List[Dict[str, Any]]:
                     if quick and imps:
                         cell["core_only"] = True
                     cells.append(cell)
+    # reference elements which are not well-formed ODXLINKs
+    for form in MALFORMED_FORMS:
+        for defs in ([[], ["LR"], list(LOCS)] if quick else subsets_of(LOCS)):
+            cell = {"form": form, "defs": defs, "imports": [], "s_first": False, "cb_first": False}
+            if quick:
+                cell["core_only"] = True
+            cells.append(cell)
     if not quick:
         # the referrer is a layer of another type (each type has its own raw class and resolution code path)
         for rtype in RTYPES[1:]:
@@ -1524,6 +1540,155 @@ def _r_unit(scs: List[Dict[str, Any]]) -> Part:
 
 
 # ---------------------------------------------------------------------------------------------
+# family (L): the link database of a loaded database as public API (Database.odxlinks.resolve / resolve_lenient,
+# OdxLinkRef.from_et, OdxLinkId)
+# ---------------------------------------------------------------------------------------------
+# resolve_lenient() has no caller inside the library; it is the documented lookup for references that may stay
+# unresolved.  Same fragment order as resolve(), "unresolved -> None" instead of an error, a wrong-kind object is an
+# assertion failure in strict mode.  The references are parsed from XML elements by OdxLinkRef.from_et with the referring
+# layer's fragments, in every spelling.
+L_TARGETS: Dict[str, Tuple[Callable[..., Dict[str, Any]], Callable[..., Dict[str, Any]], List[str], str]] = {
+    # name -> (target builder, wrong-kind builder, accepted kind tags, odxtools class expected by a typed lookup)
+    "dop": (T_dop, T_struct, ["dop"], "DataObjectProperty"),
+    "request": (T_msg("requests"), T_msg("posresps"), ["requests"], "Request"),
+}
+
+
+def l_scenarios() -> List[Dict[str, Any]]:
+    out = []
+    for t in L_TARGETS:
+        for defs in subsets_of(LOCS):
+            for wrong in ([False, True] if "LR" not in defs else [False]):
+                for imps in ([], ["LR"]):
+                    out.append({"target": t, "defs": defs, "wrong": wrong, "imports": imps})
+    return out
+
+
+def l_world(sc: Dict[str, Any]) -> Dict[str, Any]:
+    tgt, wrong, _, _ = L_TARGETS[sc["target"]]
+    L = {n: new_layer(n, "ECU-SHARED-DATA" if n == "LE" else "BASE-VARIANT") for n in LOCS}
+    for loc in sc["defs"]:
+        add(L[loc], tgt(loc, X_ID, "T@" + loc, "t_X"))
+    if sc["wrong"]:
+        add(L["LR"], wrong("LR", X_ID, "W@LR", "w_X"))
+    for imp in sc["imports"]:
+        L[imp]["imports"] = [copy.deepcopy(IMPORT_REF)]
+    return {"containers": [{"sn": "CA", "id": "CID.CA", "m": "container:CA", "layers": [L["LR"], L["LS"]]},
+                           {"sn": "CB", "id": "CID.CB", "m": "container:CB", "layers": [L["LO"]]},
+                           {"sn": "CS", "id": "CID.CS", "m": "container:CS", "layers": [L["LE"]]}]}
+
+
+def run_l_scenario(sc: Dict[str, Any]) -> List[Tuple[str, str, str, str, Optional[str]]]:
+    """-> [(form, call, expected, observed, failure mode or None)]"""
+    import importlib
+    from xml.etree import ElementTree
+    import odxtools.exceptions as oe
+    from odxtools.odxlink import OdxLinkId, OdxLinkRef
+    world = l_world(sc)
+    model = reflinks.Model(world)
+    _, _, accept, clsname = L_TARGETS[sc["target"]]
+    cls = getattr(importlib.import_module({"DataObjectProperty": "odxtools.dataobjectproperty", "Request": "odxtools.request"}[clsname]), clsname)
+    out: List[Tuple[str, str, str, str, Optional[str]]] = []
+    db, err = try_load(world)
+    if db is None:
+        return [("-", "load", "loads", "raised:" + type(err).__name__, "world-does-not-load")]
+    frags = db.diag_layers["LR"].odx_id.doc_fragments
+    old = oe.strict_mode
+    oe.strict_mode = True
+    try:
+        for form, doc in list(FORMS.items()) + list(MALFORMED_FORMS.items()):
+            attrs: Dict[str, str] = {}
+            ref: Dict[str, Any] = {"ref": X_ID}
+            if doc == "NO-ID-REF":
+                ref = {"ref": None}
+            else:
+                attrs["ID-REF"] = X_ID
+                if doc is not None:
+                    ref["doc"] = doc
+                    if doc[0] is not None:
+                        attrs["DOCREF"] = doc[0]
+                    if doc[1] is not None:
+                        attrs["DOCTYPE"] = doc[1]
+            el = ElementTree.Element("SOME-REF", attrs)
+            exp_parse = model.idref(("layer", "LR"), ref, with_imports=False, dontcares=False)
+            malformed = form in MALFORMED_FORMS and form != "docref-unknown-doctype"
+            try:
+                r = OdxLinkRef.from_et(el, frags)
+                parsed = "parsed"
+            except Exception as e:  # noqa: BLE001
+                r = None
+                parsed = "raised:" + type(e).__name__
+            if form in MALFORMED_FORMS:
+                want = "DONTCARE" if exp_parse[0] == "DONTCARE" else "raises"
+                bad = None if (want == "DONTCARE" or parsed.startswith("raised")) else "malformed-reference-accepted"
+                out.append((form, "from_et", want, parsed, bad))
+                continue
+            if r is None:
+                out.append((form, "from_et", "parsed", parsed, "well-formed-reference-rejected"))
+                continue
+            for typed in (False, True):
+                exp = model.lookup(("layer", "LR"), ref, accept if typed else None)
+                for call in ("resolve", "resolve_lenient"):
+                    try:
+                        o = getattr(db.odxlinks, call)(r, cls) if typed else getattr(db.odxlinks, call)(r)
+                        obs = "none" if o is None else "object:" + str(marker_of(o))
+                    except Exception as e:  # noqa: BLE001
+                        obs = "raised:" + type(e).__name__
+                    if exp[0] == "DONTCARE":
+                        want, bad = "DONTCARE", None
+                    elif exp[0] == "BIND":
+                        want = "object:" + exp[1]
+                        bad = None if obs == want else "wrong-result"
+                    elif exp[0] == "WRONGKIND":
+                        want = "raises (object of another kind)"
+                        bad = None if obs.startswith("raised") else "wrong-kind-object-accepted"
+                    else:
+                        want = "raises" if call == "resolve" else "none"
+                        bad = None if (obs.startswith("raised") if call == "resolve" else obs == "none") else \
+                            ("bound-instead-of-error" if call == "resolve" else "not-none-for-unresolvable")
+                    out.append((form, call + ("-typed" if typed else ""), want, obs, bad))
+        # OdxLinkId: two IDs are the same iff local ID and document fragments agree (same local ID in two layers: different)
+        objs = []
+        for loc in sc["defs"]:
+            h = find_holder(db.diag_layers[loc].diag_layer_raw, "T@" + loc)
+            if h is not None:
+                objs.append((loc, h[2]))
+        for la, a in objs:
+            same = OdxLinkId(a.odx_id.local_id, list(a.odx_id.doc_fragments))
+            ok = (a.odx_id == same and hash(a.odx_id) == hash(same) and a.odx_id != "X" and X_ID in str(a.odx_id)
+                  and OdxLinkRef.from_id(a.odx_id).ref_docs == a.odx_id.doc_fragments)
+            out.append(("-", "odxlinkid-equal", "equal", "equal" if ok else "differs", None if ok else "odxlinkid-equality"))
+            for lb, b in objs:
+                if la < lb:
+                    ne = a.odx_id != b.odx_id
+                    out.append(("-", "odxlinkid-distinct", "distinct", "distinct" if ne else "equal", None if ne else "odxlinkid-equality"))
+        el = ElementTree.Element("DATA-OBJECT-PROP")
+        none_id = OdxLinkId.from_et(el, frags)
+        out.append(("-", "odxlinkid-from-et-without-id", "none", "none" if none_id is None else "object",
+                    None if none_id is None else "odxlinkid-without-id"))
+    finally:
+        oe.strict_mode = old
+    return out
+
+
+def l_unit(scs: List[Dict[str, Any]]) -> Part:
+    try:
+        part = Part()
+        for sc in scs:
+            for form, call, want, obs, bad in run_l_scenario(sc):
+                part.count("evaluations")
+                part.count("link_database_api_checks")
+                part.add("api_outcome_classes", (call, want.split(":")[0], obs.split(":")[0]))
+                part.add("nontrivial", digest((sc["target"], sc["defs"], sc["wrong"], sc["imports"], form, call, want, obs)))
+                if bad is not None:
+                    part.violation(f"C10/api/{call}/{form}/{bad}", {"family": "L", "sc": sc},
+                                   f"{call} for {form}: expected {want}, observed {obs} [{sc}]")
+        return part
+    finally:
+        cleanup_scratch()
+
+
+# ---------------------------------------------------------------------------------------------
 # run / replay
 # ---------------------------------------------------------------------------------------------
 def chunks(xs: List[Any], n: int) -> List[List[Any]]:
@@ -1566,6 +1731,14 @@ def _run(ctx: Ctx) -> None:
                        "for an ID it only imports; IDs imported by an ancestor; SNREF to a name offered by an imported layer; same "
                        "short name in several DOP-BASE collections when one of them is inherited"]
     pmap(ctx, d_unit, chunks(dscs, 32))
+    lscs = l_scenarios()
+    ctx.bounds["link_database_api"] = {"scenarios": len(lscs), "forms": list(FORMS) + list(MALFORMED_FORMS),
+                                       "calls": ["OdxLinkRef.from_et", "resolve", "resolve_lenient", "typed and untyped", "OdxLinkId"]}
+    pmap(ctx, l_unit, chunks(lscs, 16))
+    ac = ctx.sets.get("api_outcome_classes", set())
+    ctx.guard("resolve_lenient returned None for unresolvable references, objects for resolvable ones and raised for wrong kinds",
+              ("resolve_lenient", "none", "none") in ac and ("resolve_lenient", "object", "object") in ac and
+              ("resolve_lenient-typed", "raises (object of another kind)", "raised") in ac)
     pmap(ctx, s_unit, chunks(sscs, 96))
     pmap(ctx, id_unit, [(c, kinds) for c in chunks(cells, 96)])
     rcfg = r_configs(ctx.quick)
@@ -1620,6 +1793,10 @@ def _replay(case: Any) -> List[Tuple[str, str]]:
         expected, fail, observed = run_d_scenario(sc)
         if fail is not None:
             out.append((d_key(sc, fail[0], expected, observed_marker(observed)), f"{sc['kind']}: {fail[1]} [{sc}]"))
+    elif fam == "L":
+        for form, call, want, obs, bad in run_l_scenario(sc):
+            if bad is not None:
+                out.append((f"C10/api/{call}/{form}/{bad}", f"{call} for {form}: expected {want}, observed {obs}"))
     elif fam == "R":
         for ed, phase, expected, fail, observed, _ in run_r_config(sc, None, case["edits"]):
             if fail is not None:
@@ -1637,7 +1814,9 @@ def case_files(case: Any) -> List[Tuple[str, str]]:
     [print(n, x, sep='\\n') for n, x in c10.case_files(json.load(open(sys.argv[1]))['case'])]" replays/C10/<file>.json"""
     sc = case["sc"]
     fam = case.get("family")
-    if fam in ("I", "R"):
+    if fam == "L":
+        world = l_world(sc)
+    elif fam in ("I", "R"):
         world = id_world(sc)[0]
     elif fam == "D":
         world = d_world(sc)[0]
